@@ -258,6 +258,7 @@ def run_case(case):
                           'outcomes': case['outcomes'], 'duplicate': desc,
                           'messages': [x.brief() for x in msgs][:30],
                           'final': run.state_nf}
+    _lost_cas_runs(c0, case, base, cand, res, brng, shape)
     # executor redelivery
     if case.get('executor') == 'remote':
         runs = [m for m in msgs if m.method == 'run_action']
@@ -360,6 +361,83 @@ def _redelivery(c0, base, m, sent_at, lost, res):
     # per executor invocation at most one result
     per_run = {}
     return run
+
+
+def _lost_cas_runs(c0, case, base, cand, res, brng, shape):
+    """Two engine processes handle the same result at once: this one reads
+    the task as RUNNING, the other one completes it first, and this one's
+    compare-and-swap of the task state matches nothing.  Within one process
+    that cannot happen (a transaction is atomic), so the loss is injected:
+    right before the unit's own compare-and-swap of the task state the same
+    compare-and-swap is executed 'by the other process'.  The unit that lost
+    must have no further effect: no task created, no start request sent."""
+    from mistral.db.v2.sqlalchemy import api as sa_api
+    ms = [m for m in cand if m.method == 'on_action_complete' and
+          not m.raw.get('wf_action')]
+    brng.shuffle(ms)
+    for m in ms[:3]:
+        aid = m.raw.get('action_ex_id') or ''
+        st = {'stolen': None}
+
+        def hook(w, st=st, aid=aid):
+            bhook, _ = _pause_plan(case, {})
+            orig = sa_api.update_on_match
+
+            def uom(id, specimen, values, attempts):
+                u = w.coop.current()
+                if st['stolen'] is None and u is not None and \
+                        aid[:8] in (u.label or '') and \
+                        'on_action_complete' in (u.label or '') and \
+                        type(specimen).__name__ == 'TaskExecution' and \
+                        values.get('state') in ('SUCCESS', 'ERROR'):
+                    st['stolen'] = (u.uid, id, len(w.rec.events))
+                    w.rec.emit('FAULT', fault='cas-lost-to-another-process',
+                               task_ex_id=id, to=values.get('state'))
+                    orig(id, specimen, dict(values), attempts)
+                return orig(id, specimen, values, attempts)
+            sa_api.update_on_match = uom
+            w._restore_uom = lambda: setattr(sa_api, 'update_on_match',
+                                             orig)
+        run = ec.execute(c0, replay=base.choices, setup_hook=hook,
+                         exc_allow=('ValueError',))
+        if hasattr(run.world, '_restore_uom'):
+            run.world._restore_uom()
+        res['executions'] += 1
+        if run.inconclusive:
+            res['inconclusive'] = 'lost cas: %s' % run.inconclusive
+            continue
+        if st['stolen'] is None:
+            continue
+        uid, tid, seq = st['stolen']
+        res['monitor_evaluations']['lost-cas'] = \
+            res['monitor_evaluations'].get('lost-cas', 0) + 1
+        res['keys'].append(['lost-cas', shape, aid[:8]])
+        label = None
+        for ev in run.world.rec.events:
+            if ev['kind'] == 'UNIT_END' and ev.get('uid') == uid:
+                label = ev.get('label')
+        effects = []
+        for ev in run.world.rec.events[seq:]:
+            mine = ev.get('unit') == uid or (
+                label and (ev.get('ulabel') or '') == 'ptx<' + label)
+            if not mine:
+                continue
+            if ev['kind'] == 'RPC_SEND' and ev['method'] in (
+                    'start_task', 'start_workflow', 'run_action'):
+                effects.append('sent %s' % ev.get('brief'))
+            if ev['kind'] == 'ATTR_SET' and \
+                    ev.get('model') == 'TaskExecution' and \
+                    ev.get('col') == 'workflow_execution_id' and \
+                    ev.get('new'):
+                effects.append('created a task execution')
+        if effects:
+            res['violations'].append({
+                'prop': 'C06', 'monitor': 'lost-cas',
+                'mech': 'effect-after-lost-compare-and-swap',
+                'msg': 'the unit handling the result of action %s lost the '
+                       'compare-and-swap of its task (another process '
+                       'completed it first) and still %s' % (
+                           aid[:8], '; '.join(sorted(set(effects))[:4]))})
 
 
 def _results_per_run(res, run, what):
